@@ -63,7 +63,7 @@ structure Attempt where
   deriving Repr, DecidableEq
 
 inductive Res where
-  | ok | notExist | exist | verify | write | meta | other
+  | ok | notExist | exist | verify | write | badMeta | other
   deriving Repr, DecidableEq
 
 /-! ### pure helpers -/
@@ -160,7 +160,7 @@ def genMetaFromFile (s : State) (name : Name) (pl : Int) : State × Res :=
   if !validName name then (s, .other) else
   match readable s name with
   | none => (s, .notExist)
-  | some b => if pl ≤ 0 then (s, .meta) else setTM s name (miOf crc name b pl)
+  | some b => if pl ≤ 0 then (s, .badMeta) else setTM s name (miOf crc name b pl)
 
 /-- `writeCacheFile(name, write, addMetadata, pieceLength)`; the temporary upload file has a fresh
 uuid name and is always removed again, so it is not represented -/
